@@ -7,6 +7,7 @@
 From Coq Require Import Strings.String.
 From LV Require Import Base.Bytes Base.Str Base.Utf8 Base.Res Base.Base64 Model.HeaderEnc Spec.Rfc5322 Spec.Rfc2047
   Proofs.HeaderProofs Proofs.HeaderPlainProofs Proofs.Rfc2047Proofs Proofs.Rfc2047DecProofs.
+From LV Require Import Proofs.Utf8SplitProofs.
 From Coq Require Import Lia Arith PeanoNat ZArith ZifyBool ZifyNat ZifyN.
 Local Arguments N.eqb : simpl never.
 Local Arguments N.leb : simpl never.
@@ -178,7 +179,8 @@ Definition go_pre (wrote : bool) (st : wst) : Prop :=
 Definition go_post (s : bytes) (wrote : bool) (st : wst) (r : res unit (wst * bytes)) : Prop :=
   exists ps st' o, r = Ok (st', o) /\ spaces st' = 0%nat /\ ps <> [] /\ Forall piece_ok ps /\ concat ps = s /\
     reads_as o (pre_of wrote st ++ joinenc ps) /\
-    (line_len st = 0%nat -> (1 <= spaces st)%nat -> exists o', o = SP :: o').
+    (line_len st = 0%nat -> (1 <= spaces st)%nat -> exists o', o = SP :: o') /\
+    (utf8_valid s = true -> Forall (fun p => utf8_valid p = true) ps).
 
 Lemma word_of_fresh s st : nc4 s = true -> s <> [] -> line_len st = 0%nat -> word_of s st <> [].
 Proof.
@@ -205,6 +207,7 @@ Proof.
   assert (GW : forall p, p <> [] -> (length p <= 45)%nat -> s = p ++ skipn (length p) s ->
     pre_of wrote st = sp_run (spaces st) ->
     (skipn (length p) s <> [] -> (59 <= line_len st + 12 + length (b64enc p))%nat) ->
+    (utf8_valid s = true -> utf8_valid p = true /\ utf8_valid (skipn (length p) s) = true) ->
     go_post s wrote st
     (let '(st1, o1) := w_write_str ENC_START st in
      let '(st2, o2) := w_write_str (b64enc p) st1 in
@@ -213,7 +216,7 @@ Proof.
      | Ok (st4, o4) => Ok (st4, o1 ++ o2 ++ o3 ++ o4)
      | Err e => Err e | Panic => Panic
      end)).
-  { intros p Hp Hl45 Es Hpr H59.
+  { intros p Hp Hl45 Es Hpr H59 HV.
     rewrite (w_write_str_word ENC_START st) by (try discriminate; reflexivity).
     rewrite (w_write_str_word (b64enc p)) by (try apply b64enc_ne; try apply wordb_mem_sp; try apply b64enc_wordb; exact Hp).
     rewrite (w_write_str_word ENC_END) by (try discriminate; reflexivity). cbn [line_len spaces sp_run repeat app].
@@ -231,7 +234,8 @@ Proof.
       split; [cbn [concat]; symmetry; exact Es|]. split.
       + rewrite Hpr. cbn [joinenc]. rewrite app_nil_r. rewrite <- app_assoc. apply reads_as_nocr.
         rewrite nocr_app, nocr_sp_run. apply (nocr_encw p).
-      + intros A B. rewrite <- app_assoc. apply Hfirst; assumption.
+      + split; [intros A B; rewrite <- app_assoc; apply Hfirst; assumption|].
+        intros U. constructor; [apply (HV U)|constructor].
     - assert (Hlen : (length p + length (c :: rest) = length s)%nat) by (rewrite Es; rewrite app_length; reflexivity).
       assert (Hp1 : (1 <= length p)%nat) by (destruct p; [contradiction|cbn; lia]).
       assert (IHr : go_post (c :: rest) true st3 (rfc2047_go f (c :: rest) true st3)).
@@ -240,7 +244,7 @@ Proof.
         - unfold req in *. destruct (Nat.eqb (line_len st3) 0); destruct (Nat.eqb (line_len st) 0); lia.
         - right. right. split; [reflexivity|]. unfold st3. cbn [line_len]. specialize (H59 ltac:(discriminate)).
           change (length ENC_START) with 10%nat. change (length ENC_END) with 2%nat. lia. }
-      destruct IHr as (ps & st' & o4 & E4 & Hsp & Hne & HF & Hc & HR & _). rewrite E4.
+      destruct IHr as (ps & st' & o4 & E4 & Hsp & Hne & HF & Hc & HR & _ & HU). rewrite E4.
       exists (p :: ps), st', ((sp_run (spaces st) ++ ENC_START) ++ b64enc p ++ ENC_END ++ o4). split; [reflexivity|].
       split; [exact Hsp|]. split; [discriminate|]. split; [constructor; assumption|].
       split; [cbn [concat]; rewrite Hc; symmetry; exact Es|]. split.
@@ -251,7 +255,8 @@ Proof.
         rewrite app_assoc. apply reads_as_app.
         * apply reads_as_nocr. rewrite nocr_app, nocr_sp_run. apply (nocr_encw p).
         * exact HR.
-      + intros A B. rewrite <- app_assoc. apply Hfirst; assumption. }
+      + split; [intros A B; rewrite <- app_assoc; apply Hfirst; assumption|].
+        intros U. destruct (HV U) as [U1 U2]. constructor; [exact U1|]. apply HU. exact U2. }
   destruct (word_of s st) as [|w0 wr] eqn:EW.
   - destruct (wrote || Nat.leb 1 (spaces st)) eqn:EC.
     + (* break the line *)
@@ -265,9 +270,9 @@ Proof.
         assert (IHr : go_post s false (mkW 0 (spaces st) false) (rfc2047_go f s false (mkW 0 (spaces st) false))).
         { apply IH; [exact Hs|exact Hn|exact Hb| |left; reflexivity]. unfold req in *. cbn [line_len Nat.eqb].
           destruct (Nat.eqb (line_len st) 0) eqn:E0; [apply Nat.eqb_eq in E0; contradiction|lia]. }
-        destruct IHr as (ps & st' & o3 & E3 & Hsp & Hne & HF & Hc & HR & Hfst). rewrite E3.
+        destruct IHr as (ps & st' & o3 & E3 & Hsp & Hne & HF & Hc & HR & Hfst & HU). rewrite E3.
         exists ps, st', (CRLF ++ o3). split; [reflexivity|]. split; [exact Hsp|]. split; [exact Hne|]. split; [exact HF|]. split; [exact Hc|].
-        split; [|intros A; contradiction].
+        split; [|split; [intros A; contradiction|exact HU]].
         destruct (Hfst eq_refl E1) as (o' & ->). unfold pre_of in *. cbn [andb spaces] in *.
         intros Y. cbn [CRLF app]. rewrite unfold_fold. apply (HR Y).
       * apply Nat.leb_gt in E1. assert (Hw : wrote = true) by (destruct wrote; [reflexivity|cbn in EC; discriminate]).
@@ -275,9 +280,9 @@ Proof.
         assert (IHr : go_post s true (w_space (mkW 0 (spaces st) false)) (rfc2047_go f s true (w_space (mkW 0 (spaces st) false)))).
         { apply IH; [exact Hs|exact Hn|exact Hb| |right; left; cbn; split; [reflexivity|lia]]. unfold req in *. cbn [line_len w_space Nat.eqb].
           destruct (Nat.eqb (line_len st) 0) eqn:E00; [apply Nat.eqb_eq in E00; contradiction|lia]. }
-        destruct IHr as (ps & st' & o3 & E3 & Hsp & Hne & HF & Hc & HR & Hfst). rewrite E3.
+        destruct IHr as (ps & st' & o3 & E3 & Hsp & Hne & HF & Hc & HR & Hfst & HU). rewrite E3.
         exists ps, st', (CRLF ++ o3). split; [reflexivity|]. split; [exact Hsp|]. split; [exact Hne|]. split; [exact HF|]. split; [exact Hc|].
-        split; [|intros A; contradiction].
+        split; [|split; [intros A; contradiction|exact HU]].
         destruct (Hfst eq_refl ltac:(cbn; lia)) as (o' & ->). unfold pre_of in *. cbn [andb spaces w_space] in *. rewrite E0 in *. cbn [Nat.eqb sp_run repeat] in *.
         intros Y. cbn [CRLF app]. rewrite unfold_fold. apply (HR Y).
     + (* no room, nothing pending: one character is written all the same *)
@@ -286,7 +291,7 @@ Proof.
       { unfold s, first_char_len. destruct (b0 <? 128); [discriminate|]. destruct (b0 <? 224); [discriminate|]. destruct (b0 <? 240); discriminate. }
       assert (Hl4 : (length (firstn (first_char_len b0) s) <= 4)%nat).
       { rewrite firstn_length. unfold first_char_len. destruct (b0 <? 128); [lia|]. destruct (b0 <? 224); [lia|]. destruct (b0 <? 240); lia. }
-      apply GW; [exact Hp|lia| | |].
+      apply GW; [exact Hp|lia| | | |intros U; apply first_char_valid; exact U].
       * rewrite firstn_length. rewrite <- (firstn_skipn (Nat.min (first_char_len b0) (length s)) s) at 1. f_equal.
         destruct (Nat.min_spec (first_char_len b0) (length s)) as [[_ ->]|[A ->]]; [reflexivity|]. rewrite firstn_all. symmetry. apply firstn_all2. exact A.
       * unfold pre_of. reflexivity.
@@ -310,7 +315,7 @@ Proof.
     destruct (cut_facts s m Hn Hm) as [A B]. destruct (trunc_go_prefix s m) as (k & Hk & Ek).
     pose proof (trunc_go_length s m) as Lm. rewrite EW in *.
     assert (Hu45 : (u <= 45)%nat) by (unfold u, MAX_LINE_LEN; lia).
-    apply GW; [discriminate|lia| | |].
+    apply GW; [discriminate|lia| | | |intros U; pose proof (trunc_piece_valid s m U) as T; rewrite EW in T; exact T].
     + rewrite Ek at 1. rewrite Ek. rewrite firstn_length. rewrite Nat.min_l by lia. symmetry. apply firstn_skipn.
     + unfold pre_of. destruct Hpre as [->|[[_ P]|[_ P]]]; [reflexivity| |contradiction].
       destruct (spaces st); [lia|]. rewrite andb_false_r. reflexivity.
@@ -619,3 +624,21 @@ Qed.
 (* no panic and no error: a consequence used by C19 *)
 Theorem header_value_encode_total name value : utf8_valid value = true -> exists e, header_value_encode name value = Ok e.
 Proof. intros H. destruct (header_value_roundtrip_utf8 name value H) as (e & E & _). exists e. exact E. Qed.
+
+(* ---------- every encoded-word holds a complete UTF-8 text ---------- *)
+(* rfc2047::encode on a well-formed UTF-8 text: the text is cut into pieces p1 .. pn (in order, nothing lost), each of
+   1..45 octets and each well-formed UTF-8 on its own; what is written reads (after unfolding) as the pending blanks
+   followed by the encoded-words of the pieces, separated by one SP *)
+Theorem rfc2047_pieces_complete (s : bytes) (st : wst) : s <> [] -> utf8_valid s = true ->
+  exists ps st' o, rfc2047_encode s st = Ok (st', o) /\ concat ps = s /\
+    Forall (fun p => p <> [] /\ (length p <= 45)%nat /\ utf8_valid p = true) ps /\
+    reads_as o (sp_run (spaces st) ++ joinenc ps).
+Proof.
+  intros Hs Hu. unfold rfc2047_encode.
+  destruct (rfc2047_go_sem (2 * length s + 2) s false st Hs (utf8_valid_nc4 s Hu) (utf8_valid_fuel_bytes_ok _ s Hu))
+    as (ps & st' & o & E & _ & _ & HF & Hc & HR & _ & HU);
+    [unfold req; destruct (Nat.eqb (line_len st) 0); lia|left; reflexivity|].
+  exists ps, st', o. split; [exact E|]. split; [exact Hc|]. split; [|exact HR].
+  specialize (HU Hu). clear -HF HU. induction HF as [|p ps [A [_ B]] HF IH]; [constructor|].
+  inversion HU; subst. constructor; [repeat split; assumption|apply IH; assumption].
+Qed.
